@@ -120,6 +120,13 @@ def r1b_setup(repo: Repo, rep):
         gtypes = [dump(g.args[1]) for g, pol, k in p.guards if isinstance(g, ast.Call) and attr_chain(g.func) == "isinstance" and dump(g.args[0]) == smp and pol]
         if pre:
             rep.check(R, gtypes == ["StaticSampler"], fi.site(), fi.fq, "pre-evaluation only under isinstance(sampler, StaticSampler)", f"guard types {gtypes}", f"pre-evaluation for {gtypes}")
+            # ... and only when that sampler keeps its points for ever: a static sampler with a finite resample_interval draws a new set later
+            never = any(pol == want for g, pol, k in p.guards for want, forms in ((True, (f"{smp}.resample_interval == math.inf", f"math.inf == {smp}.resample_interval", f"math.isinf({smp}.resample_interval)",
+                                                                                          f"{smp}.resample_interval == float('inf')", f"{smp}.resample_interval == torch.inf", f"{smp}.resample_interval == np.inf")),
+                                                                                  (False, (f"math.isfinite({smp}.resample_interval)", f"{smp}.resample_interval < math.inf", f"{smp}.resample_interval != math.inf")))
+                        if dump(g) in forms)
+            rep.check(R, never, fi.site(), fi.fq, "pre-evaluation only when the static sampler never resamples (resample_interval is infinite)",
+                      f"guards {[(dump(g)[:50], pol) for g, pol, k in p.guards if k == 'if']}", "pre-evaluated data for a static sampler that resamples")
             calls = {def_id(c) for e in pre for c in ast.walk(e.value) if isinstance(c, ast.Call) and dump(c) == f"{smp}.sample_points()"}
         # the returned mapping: a literal built in this call whose keyed entries are UserFunction(<something derived from the same key>)
         entries = []
